@@ -17,6 +17,7 @@ import (
 	"runtime/debug"
 	"strconv"
 	"strings"
+	"sync"
 	"testing"
 	"time"
 )
@@ -63,12 +64,17 @@ type state struct {
 
 var cur *state
 
+// tapeMu serialises tape reads: the code under test calls the fake API from several goroutines.
+var tapeMu sync.Mutex
+
 type assumeFailed struct{}
 
 func next(label, kind string) (string, bool) {
 	if cur == nil {
 		panic("nondet used outside RunReplay")
 	}
+	tapeMu.Lock()
+	defer tapeMu.Unlock()
 	n := cur.labelN[label]
 	cur.labelN[label] = n + 1
 	name := label + "#" + strconv.Itoa(n)
